@@ -77,11 +77,11 @@ def build(rng, members: list[dict], *, data_order: str = "shuffle", align: int =
             hdrs.append(header(nb, 0, b"2", linkname=m["target"].encode(), prefix=prefix))
             expected.append((name, "sym", 0, m["target"]))
         elif kind == "empty":
-            hdrs.append(header(nb, 0, b"0", offset_data=m.get("offset", 0), prefix=prefix))
+            hdrs.append(header(nb, 0, m.get("typeflag", b"0"), offset_data=m.get("offset", 0), prefix=prefix))
             expected.append((name, "file", 0, b""))
         elif kind == "std":
             data = m["data"]
-            hdrs.append(header(nb, len(data), b"0", visor=False, prefix=prefix, gnu=not prefix and rng.random() < 0.5))
+            hdrs.append(header(nb, len(data), m.get("typeflag", b"0"), visor=False, prefix=prefix, gnu=not prefix and rng.random() < 0.5))
             hdrs.append(data.ljust(-(-len(data) // 512) * 512, b"\0"))
             expected.append((name, "file", len(data), data))
         else:
@@ -117,7 +117,8 @@ def build(rng, members: list[dict], *, data_order: str = "shuffle", align: int =
         if isinstance(h, tuple):
             _, i, nb, prefix = h
             d = members[i]["data"]
-            out += header(nb, len(d), b"0", offset_data=offs[i], prefix=prefix, text_pgs=members[i].get("text_pgs", 0), fixup_pgs=members[i].get("fixup_pgs", 0))
+            out += header(nb, len(d), members[i].get("typeflag", b"0"), offset_data=offs[i], prefix=prefix, text_pgs=members[i].get("text_pgs", 0),
+                          fixup_pgs=members[i].get("fixup_pgs", 0))
         else:
             out += h
     out += b"\0" * 1024
